@@ -533,6 +533,15 @@ func checkInterest(val *Interest, context *InterestParsingContext) error {
 	if val.SignatureValue != nil && val.ApplicationParameters == nil {
 		return enc.ErrIncorrectDigest
 	}
+	if val.ApplicationParameters == nil {
+		// An Interest without ApplicationParameters must not carry a parameters digest:
+		// otherwise the parameters could be stripped from a packet without the check below noticing.
+		for _, c := range val.NameV {
+			if c.Typ == enc.TypeParametersSha256DigestComponent {
+				return enc.ErrIncorrectDigest
+			}
+		}
+	}
 	if val.ApplicationParameters != nil {
 		// Check digest
 		name := val.NameV
